@@ -1051,13 +1051,22 @@ def hstack(arrs):
     return concatenate(arrs, axis=0 if arrs[0].ndim == 1 else 1)
 
 
-def take(a, indices, axis=None):
+def take(a, indices, axis=None, out=None, mode="raise"):
     a = asarray(a)
     if axis is None:
-        return a.ravel()[indices]
-    axis = axis + a.ndim if axis < 0 else axis
-    key = (slice(None),) * axis + (indices,)
-    return a[key]
+        r = a.ravel()[indices]
+    else:
+        axis = axis + a.ndim if axis < 0 else axis
+        key = (slice(None),) * axis + (indices,)
+        r = a[key]
+    if out is not None:
+        r_ = asarray(r)
+        if tuple(out.shape) != tuple(r_.shape):
+            raise ValueError("output array does not match result of ndarray.take")
+        for i, c in zip(out.ix, r_.data):
+            out.buf[i] = out._store_cast(c)      # written through: `out` may be a view of a longer-lived buffer
+        return out
+    return r
 
 
 def diagonal(a, offset=0, axis1=0, axis2=1):
